@@ -90,12 +90,13 @@ type caseSpec struct {
 	Salt           uint64      `json:"salt"` // seeds tool-output chunkings
 
 	// sub-workloads (rd_test.go, ctx_test.go, overlap_test.go); all empty for the classic workload
-	Kind         string       `json:"kind,omitempty"`           // "" | "rd" | "ctx" | "overlap" | "future" | "resume"
+	Kind         string       `json:"kind,omitempty"`           // "" | "rd" | "ctx" | "overlap" | "future" | "resume" | "embed"
 	ToolChunkMax int          `json:"tool_chunk_max,omitempty"` // >0: streamable tools emit 2..max chunks
 	Ctx          *ctxSpec     `json:"ctx,omitempty"`            // constructor context + checker implementation
 	Overlap      *overlapSpec `json:"overlap,omitempty"`        // runs of ONE agent that overlap in time
 	Future       *futureSpec  `json:"future,omitempty"`         // runs with react.WithMessageFuture, tools / model built on graphs (future_test.go)
 	Resume       *resumeSpec  `json:"resume,omitempty"`         // the exported agent graph nested, interrupted and resumed (resume_test.go)
+	Embed        *embedSpec   `json:"embed,omitempty"`          // the agent inside a Chain / Graph / Workflow, the MessageFuture given to the outer call (embed_test.go)
 }
 
 func (c *caseSpec) digest() string {
